@@ -4,11 +4,13 @@ CONSTANTS
   Anns = {"both", "size", "hash", "none"}
   Sizes = {0, 1, 2, 3, 4, 5, 6, 7, 9}
   MaxFaults = 2
-  MaxInject = 2
+  MaxInject = 1
   FaultKinds = {"Lose", "Drop", "Dup", "Flip", "WrongSid", "WrongFrom", "Swap", "EarlyClose"}
-  InjectKinds = {"from", "sid"}
+  InjectKinds = {"from", "res"}
+  InjectElems = {"data", "close"}
   Bursts = {1, 2, 5}
   MaxHist = 999
 INVARIANTS TypeOK Safe CleanSuccess CleanInv
+PROPERTIES ForeignInert
 VIEW View
 CHECK_DEADLOCK FALSE
